@@ -1167,6 +1167,9 @@ func (c *Ctx) referenceEscapes(v ssa.Value, mut map[*ssa.Function]string, depth 
 			}
 			continue
 		case *ssa.Call:
+			if _, isFunc := v.Type().Underlying().(*types.Signature); isFunc && u.Call.Value == v {
+				continue // a function value taken from a table is called: nothing is written through a function value
+			}
 			if b, ok := u.Call.Value.(*ssa.Builtin); ok {
 				switch b.Name() {
 				case "len", "cap":
